@@ -232,9 +232,21 @@ def sink_returns(tree):
                         continue
                     for k in range(len(block) - 1):
                         st, rt = block[k], block[k + 1]
-                        if not (isinstance(st, ast.If) and isinstance(rt, ast.Return) and isinstance(rt.value, ast.Name)):
+                        if not (isinstance(st, ast.If) and isinstance(rt, ast.Return) and rt.value is not None):
                             continue
-                        T = rt.value.id
+                        if isinstance(rt.value, ast.Name):
+                            T = rt.value.id
+                        else:
+                            # `return f(T)`: a local that is assigned at the end of every branch and read only in the returned expression
+                            cand_names = [x.id for x in ast.walk(rt.value) if isinstance(x, ast.Name) and isinstance(x.ctx, ast.Load)]
+                            last_assigned = set()
+                            for blk_ in (st.body, st.orelse):
+                                if blk_ and isinstance(blk_[-1], ast.Assign) and len(blk_[-1].targets) == 1 and isinstance(blk_[-1].targets[0], ast.Name):
+                                    last_assigned.add(blk_[-1].targets[0].id)
+                            picks = [n_ for n_ in cand_names if n_ in last_assigned and cand_names.count(n_) == 1 and len(names_load.get(n_, [])) == 1]
+                            if len(picks) != 1 or len(st.body) != 1 or len(st.orelse) != 1:
+                                continue                         # only when each branch does nothing but choose the value
+                            T = picks[0]
                         if len(names_load.get(T, [])) != 1:
                             continue
 
@@ -271,9 +283,138 @@ def sink_returns(tree):
                                 continue
                             block[:] = [pj for pj in block if not (isinstance(pj, ast.Assign) and len(pj.targets) == 1 and isinstance(pj.targets[0], ast.Name)
                                                                    and pj.targets[0].id == T and isinstance(pj.value, ast.Constant) and pj is not st)]
+                        import copy as _cp
                         for (blk, asg) in lv:
-                            blk[blk.index(asg)] = ast.copy_location(ast.Return(value=asg.value), asg)
+                            if isinstance(rt.value, ast.Name):
+                                newv = asg.value
+                            else:
+                                class _S(ast.NodeTransformer):
+                                    def visit_Name(self, n_):
+                                        if n_.id == T and isinstance(n_.ctx, ast.Load):
+                                            return ast.copy_location(asg.value, n_)
+                                        return n_
+                                newv = _S().visit(_cp.deepcopy(rt.value))
+                            nr = ast.copy_location(ast.Return(value=newv), asg)
+                            ast.fix_missing_locations(nr)
+                            blk[blk.index(asg)] = nr
                         block.remove(rt)
+                        changed = True
+                        done += 1
+                        break
+                    if changed:
+                        break
+                if changed:
+                    break
+    return done
+
+
+def sink_method_values(tree):
+    """`if c: f = self.a else: f = self.b` immediately followed by one statement that calls `f(args)` (f used nowhere else)  ->  the call
+    is made in each branch: `if c: T = self.a(args) else: T = self.b(args)`.  Choosing a bound method first and calling it afterwards is
+    the same program as calling it in the branch."""
+    import copy as _copy
+    done = 0
+    for fn in [n for n in ast.walk(tree) if isinstance(n, (ast.FunctionDef, ast.AsyncFunctionDef))]:
+        changed = True
+        while changed:
+            changed = False
+            loads, stores = {}, {}
+            for x in ast.walk(fn):
+                if isinstance(x, ast.Name):
+                    (loads if isinstance(x.ctx, ast.Load) else stores).setdefault(x.id, []).append(x)
+            for node in ast.walk(fn):
+                for field in ("body", "orelse", "finalbody"):
+                    block = getattr(node, field, None)
+                    if not (isinstance(block, list) and len(block) >= 2 and isinstance(block[0], ast.stmt)):
+                        continue
+                    for k in range(len(block) - 1):
+                        st, nx = block[k], block[k + 1]
+                        if not (isinstance(st, ast.If) and st.orelse and isinstance(nx, (ast.Assign, ast.Expr, ast.Return, ast.AugAssign))
+                                and isinstance(getattr(nx, "value", None), ast.Call) and isinstance(nx.value.func, ast.Name)):
+                            continue
+                        f = nx.value.func.id
+                        if len(loads.get(f, [])) != 1:
+                            continue
+
+                        def leaves(stmts):
+                            if not stmts:
+                                return None
+                            last = stmts[-1]
+                            if isinstance(last, ast.Assign) and len(last.targets) == 1 and isinstance(last.targets[0], ast.Name) and last.targets[0].id == f \
+                                    and isinstance(last.value, ast.Attribute):
+                                return [(stmts, last)]
+                            if isinstance(last, ast.If) and last.orelse:
+                                a_, b_ = leaves(last.body), leaves(last.orelse)
+                                return None if a_ is None or b_ is None else a_ + b_
+                            return None
+                        a_, b_ = leaves(st.body), leaves(st.orelse)
+                        if a_ is None or b_ is None or len(stores.get(f, [])) != len(a_ + b_):
+                            continue
+                        # the arguments must not depend on anything the branches assign besides f (they are evaluated in the branch now)
+                        for (blk, asg) in a_ + b_:
+                            new = _copy.deepcopy(nx)
+                            new.value.func = asg.value
+                            ast.copy_location(new, asg)
+                            ast.fix_missing_locations(new)
+                            blk[blk.index(asg)] = new
+                        block.remove(nx)
+                        changed = True
+                        done += 1
+                        break
+                    if changed:
+                        break
+                if changed:
+                    break
+    return done
+
+
+def sink_branch_chosen_values(tree):
+    """`if c: S = A else: S = B` (each branch exactly this one assignment) immediately followed by `L = g(S)` with S read nowhere else
+    ->  `if c: L = g(A) else: L = g(B)`."""
+    import copy as _cp
+    done = 0
+    for fn in [n for n in ast.walk(tree) if isinstance(n, (ast.FunctionDef, ast.AsyncFunctionDef))]:
+        changed = True
+        while changed:
+            changed = False
+            loads, stores = {}, {}
+            for x in ast.walk(fn):
+                if isinstance(x, ast.Name):
+                    (loads if isinstance(x.ctx, ast.Load) else stores).setdefault(x.id, []).append(x)
+            for node in ast.walk(fn):
+                for field in ("body", "orelse", "finalbody"):
+                    block = getattr(node, field, None)
+                    if not (isinstance(block, list) and len(block) >= 2 and isinstance(block[0], ast.stmt)):
+                        continue
+                    for k in range(len(block) - 1):
+                        st, nx = block[k], block[k + 1]
+                        if not (isinstance(st, ast.If) and len(st.body) == 1 and len(st.orelse) == 1 and isinstance(nx, ast.Assign) and len(nx.targets) == 1
+                                and (isinstance(nx.targets[0], ast.Name) or (isinstance(nx.targets[0], ast.Tuple) and all(isinstance(t_, ast.Name) for t_ in nx.targets[0].elts)))):
+                            continue
+                        a_, b_ = st.body[0], st.orelse[0]
+                        if not all(isinstance(z, ast.Assign) and len(z.targets) == 1 and isinstance(z.targets[0], ast.Name) for z in (a_, b_)):
+                            continue
+                        T = a_.targets[0].id
+                        nx_names = {nx.targets[0].id} if isinstance(nx.targets[0], ast.Name) else {t_.id for t_ in nx.targets[0].elts}
+                        if b_.targets[0].id != T or T in nx_names:
+                            continue
+                        uses = [x for x in ast.walk(nx.value) if isinstance(x, ast.Name) and x.id == T and isinstance(x.ctx, ast.Load)]
+                        if len(uses) != 1 or len(loads.get(T, [])) != 1 or len(stores.get(T, [])) != 2:
+                            continue
+                        # the statement must not read its own target, and the branch values must not read the target either
+                        for z in (a_, b_):
+                            class _S(ast.NodeTransformer):
+                                def visit_Name(self, n_):
+                                    if n_.id == T and isinstance(n_.ctx, ast.Load):
+                                        return ast.copy_location(z.value, n_)
+                                    return n_
+                            new = _cp.deepcopy(nx)
+                            new.value = _S().visit(new.value)
+                            ast.copy_location(new, z)
+                            ast.fix_missing_locations(new)
+                            blk = st.body if z is a_ else st.orelse
+                            blk[0] = new
+                        block.remove(nx)
                         changed = True
                         done += 1
                         break
@@ -775,6 +916,8 @@ class ModuleInfo:
         uncache_attribute_locals(self.tree)
         canonicalise(self.tree)
         uncache_attribute_locals(self.tree)      # tuple assignments were split by canonicalise
+        sink_method_values(self.tree)
+        sink_branch_chosen_values(self.tree)
         sink_returns(self.tree)
         self.star_imports = []     # module names (package-local or external)
         self.names = {}            # local name -> ('class'|'func'|'module'|'external'|'var', target)
